@@ -166,7 +166,35 @@ func c18quote(c *core.Ctx) {
 		if !ok {
 			continue
 		}
-		cn := core.FullName(core.Callee(cs.Pkg, call))
+		cpk := cs.Pkg
+		cn := core.FullName(core.Callee(cpk, call))
+		// a helper of the module that builds the text: look at what it returns
+		for depth := 0; depth < 2 && cn != "fmt.Sprintf" && !strings.HasPrefix(cn, "strconv.Quote"); depth++ {
+			hf, isF := core.Callee(cpk, call).(*types.Func)
+			if !isF || hf.Pkg() == nil || !core.InScope(hf.Pkg().Path()) {
+				break
+			}
+			hd := c.P.FindDecl(core.Rel(hf.FullName()))
+			if hd == nil || hd.Decl.Body == nil {
+				break
+			}
+			var inner *ast.CallExpr
+			ast.Inspect(hd.Decl.Body, func(n ast.Node) bool {
+				if r, isR := n.(*ast.ReturnStmt); isR && len(r.Results) >= 1 {
+					if ic, isC := ast.Unparen(r.Results[0]).(*ast.CallExpr); isC {
+						if nm := core.FullName(core.Callee(hd.Pkg, ic)); nm == "fmt.Sprintf" || strings.HasPrefix(nm, "strconv.Quote") {
+							inner = ic
+						}
+					}
+				}
+				return true
+			})
+			if inner == nil {
+				break
+			}
+			call, cpk = inner, hd.Pkg
+			cn = core.FullName(core.Callee(cpk, call))
+		}
 		if cn != "fmt.Sprintf" && !strings.HasPrefix(cn, "strconv.Quote") {
 			continue
 		}
@@ -174,7 +202,7 @@ func c18quote(c *core.Ctx) {
 		key := core.F("%s:%s#%d", fn, name, n)
 		bad := strings.HasPrefix(cn, "strconv.Quote")
 		if cn == "fmt.Sprintf" && len(call.Args) > 0 {
-			if v := core.ConstOf(cs.Pkg, call.Args[0]); v != nil && v.Kind() == constant.String {
+			if v := core.ConstOf(cpk, call.Args[0]); v != nil && v.Kind() == constant.String {
 				f := constant.StringVal(v)
 				if strings.Contains(f, "%q") || strings.Contains(f, "%#v") || strings.Contains(f, "%+q") {
 					bad = true
